@@ -23,6 +23,8 @@ func stateCommentStarted(s *Scanner, c byte) *jerr.JApiError {
 		s.step = stateCommentDouble
 		return nil
 	default:
+		// Only three comment signs in a row open a comment block.
+		s.step = stateSingleComment
 		return stateSingleComment(s, c)
 	}
 }
@@ -33,6 +35,8 @@ func stateCommentDouble(s *Scanner, c byte) *jerr.JApiError {
 		s.step = stateCommentBlock
 		return nil
 	default:
+		// Only three comment signs in a row open a comment block.
+		s.step = stateSingleComment
 		return stateSingleComment(s, c)
 	}
 }
